@@ -134,7 +134,7 @@ static void FinishCmd(int idx) {
     vfs::disk->Write(s.depfile, DepfileText(s));
   }
   if (s.msvc)
-    for (const string& h : s.hidden) rc.output += "Note: including file: " + h + "\n";
+    for (const string& h : s.hidden) rc.output += "Note: including file: " + s.Spelled(h) + "\n";
   rc.output += s.print;
   rc.status = 0;
   Record(Event::kFinish, idx, 0);
